@@ -25,24 +25,44 @@ package metadata
 // ---- every key builder returns exactly the specified key ----
 
 //@ func offsetKey
+//@   inline
+//@   exact_strings
 //@   ensures [C22.shape.offsetKey] result == c22OffsetKey(topic, fmtd(partition))
 //@ func consumerOffsetKey
+//@   inline
+//@   exact_strings
 //@   ensures [C22.shape.consumerOffsetKey] result == c22ConsumerOffsetKey(group, topic, fmtd(partition))
 //@ func TopicConfigKey
+//@   inline
+//@   exact_strings
 //@   ensures [C22.shape.TopicConfigKey] result == c22TopicConfigKey(topic)
 //@ func PartitionStateKey
+//@   inline
+//@   exact_strings
 //@   ensures [C22.shape.PartitionStateKey] result == c22PartitionStateKey(topic, fmtd(partition))
 //@ func ConsumerOffsetKey
+//@   inline
+//@   exact_strings
 //@   ensures [C22.shape.ConsumerOffsetKey] result == c22ConsumerOffsetKey(groupID, topic, fmtd(partition))
 //@ func PartitionAssignmentKey
+//@   inline
+//@   exact_strings
 //@   ensures [C22.shape.PartitionAssignmentKey] result == c22AssignmentKey(topic, fmtd(partition))
 //@ func partitionLeaseKey
+//@   inline
+//@   exact_strings
 //@   ensures [C22.shape.partitionLeaseKey] result == c22LeaseKey(topic, fmtd(partition))
 //@ func partitionResourceID
+//@   inline
+//@   exact_strings
 //@   ensures [C22.shape.partitionResourceID] result == c22ResourceID(topic, fmtd(partition))
 //@ func partitionKey
+//@   inline
+//@   exact_strings
 //@   ensures [C22.shape.partitionKey] result == c22PartitionKey(topic, fmtd(partition))
 //@ func consumerKey
+//@   inline
+//@   exact_strings
 //@   ensures [C22.shape.consumerKey] result == c22ConsumerKey(group, topic, fmtd(partition))
 
 // ---- prefix / substring scans keyed by a topic name: each uses exactly the specified prefix ----
@@ -50,10 +70,12 @@ package metadata
 // mem_topic_prefix_hits_own_keys_only say that these prefixes match keys of that topic only)
 
 //@ func (s *EtcdStore) deleteTopicOffsets
+//@   exact_strings
 //@   requires s.client != nil
 //@   at Delete#1 before assert [C22.etcd_delete_uses_topic_prefix] arg1 == c22TopicEtcdPrefix(topic)
 //@
 //@ func (s *EtcdStore) deleteConsumerOffsets
+//@   exact_strings
 //@   requires s.client != nil
 //@   at Contains#1 before assert [C22.etcd_consumer_delete_uses_topic_infix] arg1 == c22ConsumerTopicInfix(topic)
 //@
